@@ -62,26 +62,37 @@ Conf_Commit ==
 \* (Pools.tla is what MCPools explores exhaustively.)  Covered: a single-hop trade in a pool that has no limit orders, commission paid in the base
 \* coin from a base-coin price table; adding / removing liquidity with the commission not converted through that pool.
 PL == INSTANCE Pools
-TradePools == PoolOf(st, CoinsArg[1], CoinsArg[2])
+Hops == 1..(Len(CoinsArg) - 1)
+HopPools(i) == PoolOf(st, CoinsArg[i], CoinsArg[i + 1])
+HopPool(i) == CHOOSE p \in HopPools(i) : TRUE
 NoOrdersIn(p) == \A o \in DOMAIN st.orders : st.orders[o].pool # p
+\* a route of one or more hops through distinct pools without limit orders
 TradeCovered == /\ Delivered /\ Code = 0 /\ Tx.type \in {"SellSwapPool", "BuySwapPool"} /\ Tx.intact /\ "st" \in DOMAIN ev'
-                /\ Len(CoinsArg) = 2 /\ Tx.gasCoin = Base /\ st.priceCoin = Base
-                /\ Cardinality(TradePools) = 1 /\ \A p \in TradePools : NoOrdersIn(p) /\ p \in DOMAIN st'.pools
+                /\ Len(CoinsArg) >= 2 /\ Tx.gasCoin = Base /\ st.priceCoin = Base
+                /\ \A i \in Hops : Cardinality(HopPools(i)) = 1 /\ NoOrdersIn(HopPool(i)) /\ HopPool(i) \in DOMAIN st'.pools
+                /\ \A i, k \in Hops : i # k => HopPool(i) # HopPool(k)
+Fwd(i) == st.pools[HopPool(i)].c0 = CoinsArg[i]
+RIn(i) == IF Fwd(i) THEN st.pools[HopPool(i)].r0 ELSE st.pools[HopPool(i)].r1
+ROut(i) == IF Fwd(i) THEN st.pools[HopPool(i)].r1 ELSE st.pools[HopPool(i)].r0
+RIn2(i) == IF Fwd(i) THEN st'.pools[HopPool(i)].r0 ELSE st'.pools[HopPool(i)].r1
+ROut2(i) == IF Fwd(i) THEN st'.pools[HopPool(i)].r1 ELSE st'.pools[HopPool(i)].r0
+\* the trades of the hops: a sell pushes its amount forward through the route, a buy pulls its amount backward
+RECURSIVE SellHops(_, _)
+SellHops(i, v) == IF i > Len(CoinsArg) - 1 THEN <<>>
+                  ELSE LET t == PL!SellTrade(RIn(i), ROut(i), v) IN <<t>> \o (IF t.ok THEN SellHops(i + 1, t.out) ELSE <<>>)
+RECURSIVE BuyHops(_, _)
+BuyHops(i, v) == IF i < 1 THEN <<>>
+                 ELSE LET t == PL!BuyTrade(RIn(i), ROut(i), v) IN (IF t.ok THEN BuyHops(i - 1, t.pay) ELSE <<>>) \o <<t>>
+RouteTrades == IF Tx.type = "SellSwapPool" THEN SellHops(1, Arg("value")) ELSE BuyHops(Len(CoinsArg) - 1, Arg("value"))
 Conf_Trade ==
    Clause("DRIFT", "PoolModelPredictsTrade", TradeCovered,
-          \A p \in TradePools :
-             LET q == st.pools[p]  q2 == st'.pools[p]
-                 fwd == q.c0 = CoinsArg[1]
-                 rIn == IF fwd THEN q.r0 ELSE q.r1
-                 rOut == IF fwd THEN q.r1 ELSE q.r0
-                 t == IF Tx.type = "SellSwapPool" THEN PL!SellTrade(rIn, rOut, Arg("value")) ELSE PL!BuyTrade(rIn, rOut, Arg("value"))
-             IN /\ t.ok
-                /\ (IF fwd THEN q2.r0 ELSE q2.r1) = rIn ++ t.net
-                /\ (IF fwd THEN q2.r1 ELSE q2.r0) = rOut -- t.out
-                /\ Got(CoinsArg[2]) = t.out
-                /\ Spent(CoinsArg[1]) = t.pay,
-          [at |-> WhereTx, before |-> [p \in TradePools |-> st.pools[p]], after |-> [p \in TradePools |-> st'.pools[p]],
-           got |-> Got(CoinsArg[2]), spent |-> Spent(CoinsArg[1]), value |-> Arg("value")])
+          LET ts == RouteTrades IN
+          /\ Len(ts) = Len(CoinsArg) - 1
+          /\ \A i \in Hops : ts[i].ok /\ RIn2(i) = RIn(i) ++ ts[i].net /\ ROut2(i) = ROut(i) -- ts[i].out
+          /\ Got(CoinsArg[Len(CoinsArg)]) = ts[Len(ts)].out
+          /\ Spent(CoinsArg[1]) = ts[1].pay,
+          [at |-> WhereTx, before |-> [i \in Hops |-> st.pools[HopPool(i)]], after |-> [i \in Hops |-> st'.pools[HopPool(i)]],
+           got |-> Got(CoinsArg[Len(CoinsArg)]), spent |-> Spent(CoinsArg[1]), value |-> Arg("value")])
 LiqPools == PoolOf(st, Arg("c0"), Arg("c1"))
 LiqCovered == /\ Delivered /\ Code = 0 /\ Tx.type \in {"AddLiquidity", "RemoveLiquidity"} /\ Tx.intact /\ "st" \in DOMAIN ev' /\ ~FeeThroughPool
               /\ Cardinality(LiqPools) = 1 /\ \A p \in LiqPools : p \in DOMAIN st'.pools
